@@ -359,9 +359,11 @@ func (p *Prog) witnessType(f *ssa.Function, w *Witness) types.Type {
 		if len(id) > len("callresult") {
 			fmt.Sscanf(id[len("callresult"):], "%d", &idx)
 		}
-		for _, g := range p.allFuncs() {
-			if g.Name() == w.Callee && idx < g.Signature.Results().Len() {
-				return g.Signature.Results().At(idx).Type()
+		for _, wantRecv := range []bool{false, true} { // package-level functions first
+			for _, g := range p.allFuncs() {
+				if g.Name() == w.Callee && (g.Signature.Recv() != nil) == wantRecv && idx < g.Signature.Results().Len() {
+					return g.Signature.Results().At(idx).Type()
+				}
 			}
 		}
 	}
